@@ -608,3 +608,8 @@ PROP = with_src(PROP, share=10,
 # functions call — the digest guard on the class is gone, an edit of a method is a failed proof obligation here
 from srccall import X9_TOK_FUNCS, X9_TOK_THEOREMS, X9_TOK_MODULE  # noqa: E402
 PROP = with_src(PROP, share=10, functions=X9_TOK_FUNCS, module=[X9_TOK_MODULE], theorems=X9_TOK_THEOREMS)
+
+# history-insensitivity on shared objects (harness/histlaw.py): programs over Specifier / SpecifierSet / Requirement / Marker
+# objects; extra read-only calls and work on unrelated objects built from the same texts must not change any answer
+import histlaw  # noqa: E402
+PROP = histlaw.attach(PROP, every=25)
